@@ -267,6 +267,10 @@ var setupSQL = []string{
 	"create database other",
 	"create table other.o (i int primary key)",
 	"insert into other.o values (7)",
+	"create table other.s (x int primary key, y int)",
+	"insert into other.s values (1,100),(2,200),(6,600)",
+	"create procedure p_multi() begin insert into log (msg) values ('m'); update t set c = 0 where a = 1; delete from u where x = 5; end",
+	"create procedure p_other() begin insert into other.o values (9); update other.s set y = y + 1; end",
 }
 
 type world struct {
@@ -294,18 +298,25 @@ func newWorld() *world {
 
 // roEngine builds a second engine whose provider wraps every database as a memory.ReadOnlyDatabase (what
 // enginetest's NewReadOnlyEngine does).
-func (w *world) roEngine() *eng.E {
+// Database db is read-only, every other database stays writable.  With plainSession the sessions are built over the
+// plain provider (memory.Session.CommitTransaction cannot commit through a memory.ReadOnlyDatabase, a recorded
+// finding; the analyzer still sees the read-only wrapper), otherwise over the wrapping provider.
+func (w *world) roEngine(plainSession bool) *eng.E {
 	var dbs []sql.Database
 	ctx := sql.NewEmptyContext()
 	for _, db := range w.rw.Pro.AllDatabases(ctx) {
-		if h, ok := db.(*memory.HistoryDatabase); ok {
+		if h, ok := db.(*memory.HistoryDatabase); ok && h.Name() == "db" {
 			dbs = append(dbs, memory.ReadOnlyDatabase{HistoryDatabase: h})
 		} else {
 			dbs = append(dbs, db)
 		}
 	}
-	pro := memory.NewDBProviderWithOpts(memory.WithDbsOption(dbs)).(*memory.DbProvider)
-	return &eng.E{Pro: pro, Engine: newEngine(pro), DB: "db"}
+	pro := memory.NewDBProviderWithOpts(memory.HistoryProvider(true), memory.WithDbsOption(dbs)).(*memory.DbProvider)
+	e := &eng.E{Pro: pro, Engine: newEngine(pro), DB: "db"}
+	if plainSession {
+		e.Pro = w.rw.Pro
+	}
+	return e
 }
 
 func q(s *eng.S, sqlText string) string {
@@ -470,7 +481,7 @@ var templates = []stmtT{
 	{Name: "insert-autoinc", Class: "dml", SQL: "insert into log (msg) values ('x')"},
 	{Name: "insert-trigger", Class: "dml", SQL: "insert into tr values (1,1)"},
 	{Name: "insert-set", Class: "dml", SQL: "insert into w set k = 2, v = 2"},
-	{Name: "insert-other-db", Class: "dml", SQL: "insert into other.o values (8)"},
+	{Name: "insert-other-db", Class: "dml-other", SQL: "insert into other.o values (8)"},
 	{Name: "replace", Class: "dml", SQL: "replace into t values (1,'replaced',0)"},
 	{Name: "update", Class: "dml", SQL: "update t set c = c + 1 where a < 3"},
 	{Name: "update-all", Class: "dml", SQL: "update u set y = 0"},
@@ -490,6 +501,46 @@ var templates = []stmtT{
 	{Name: "execute-write", Class: "dml", Prelude: []string{"prepare s4 from 'insert into t values (9,''x'',9)'"}, SQL: "execute s4"},
 	{Name: "execute-write-bind", Class: "dml", Prelude: []string{"prepare s5 from 'delete from u where x = ?'", "set @k = 5"}, SQL: "execute s5 using @k"},
 	{Name: "create-table-select", Class: "ddl", SQL: "create table cs as select a, b from t"},
+	// ---- statements spanning the read-only database db and the writable database other
+	{Name: "xdb-update-ro-first", Class: "dml", SQL: "update t join other.s on t.a = other.s.x set t.c = other.s.y + 1"},
+	{Name: "xdb-update-ro-first-qualified", Class: "dml", SQL: "update db.t join other.s on db.t.a = other.s.x set db.t.c = other.s.y + 2"},
+	{Name: "xdb-update-rw-first", Class: "dml", SQL: "update other.s join t on t.a = other.s.x set t.c = other.s.y + 3"},
+	{Name: "xdb-update-ro-first-alias", Class: "dml", SQL: "update t as p join other.s as q on p.a = q.x set p.c = q.y + 4"},
+	{Name: "xdb-update-rw-first-alias", Class: "dml", SQL: "update other.s as q join t as p on p.a = q.x set p.c = q.y + 5"},
+	{Name: "xdb-update-three-tables", Class: "dml", SQL: "update t join other.s on t.a = other.s.x join other.o on other.o.i > 0 set t.c = other.s.y + other.o.i"},
+	{Name: "xdb-update-both", Class: "dml", SQL: "update t join other.s on t.a = other.s.x set t.c = 77, other.s.y = 78"},
+	{Name: "xdb-update-subquery", Class: "dml", SQL: "update t set c = (select max(y) from other.s) where a in (select x from other.s)"},
+	{Name: "xdb-update-target-rw", Class: "dml-other", SQL: "update other.s join t on t.a = other.s.x set other.s.y = t.c"},
+	{Name: "xdb-delete-ro-first", Class: "dml", SQL: "delete t from t join other.s on t.a = other.s.x"},
+	{Name: "xdb-delete-rw-first", Class: "dml", SQL: "delete t from other.s join t on t.a = other.s.x"},
+	{Name: "xdb-delete-ro-first-alias", Class: "dml", SQL: "delete p from t as p join other.s as q on p.a = q.x"},
+	{Name: "xdb-delete-rw-first-alias", Class: "dml", SQL: "delete p from other.s as q join t as p on p.a = q.x"},
+	{Name: "delete-two-targets", Class: "dml", SQL: "delete u, fk from u join fk on u.x = fk.id"},
+	{Name: "xdb-delete-u-ro-first", Class: "dml", SQL: "delete u from u join other.s on u.x = other.s.x"},
+	{Name: "xdb-delete-subquery", Class: "dml", SQL: "delete from u where x in (select x from other.s)"},
+	{Name: "xdb-delete-target-rw", Class: "dml-other", SQL: "delete other.s from other.s join t on t.a = other.s.x"},
+	{Name: "xdb-insert-select-into-ro", Class: "dml", SQL: "insert into u select x + 100, y from other.s"},
+	{Name: "xdb-insert-select-join-into-ro", Class: "dml", SQL: "insert into log (msg) select concat(t.b, other.s.y) from other.s join t on t.a = other.s.x"},
+	{Name: "xdb-insert-select-into-rw", Class: "dml-other", SQL: "insert into other.s select a + 100, c from t"},
+	{Name: "xdb-replace-select-into-ro", Class: "dml", SQL: "replace into u select x, y from other.s"},
+	{Name: "xdb-on-dup-select-into-ro", Class: "dml", SQL: "insert into u select x, y from other.s on duplicate key update y = 1"},
+	{Name: "xdb-create-select-in-ro", Class: "ddl", SQL: "create table cs2 as select * from other.s"},
+	{Name: "xdb-create-select-in-rw", Class: "ddl-other", SQL: "create table other.cs3 as select a, b from t"},
+	{Name: "xdb-create-like-in-rw", Class: "ddl-other", SQL: "create table other.t2 like t"},
+	{Name: "truncate-other", Class: "dml-other", SQL: "truncate table other.s"},
+	{Name: "replace-new", Class: "dml", SQL: "replace into u values (9, 90)"},
+	{Name: "on-dup-new-row", Class: "dml", SQL: "insert into u values (9, 90) on duplicate key update y = 1"},
+	{Name: "truncate-log", Class: "dml", SQL: "truncate log"},
+	{Name: "load-data", Class: "dml", SQL: "load data infile '%DIR%/t_new.csv' into table t fields terminated by ','"},
+	{Name: "load-data-ignore", Class: "dml", SQL: "load data infile '%DIR%/t_dup.csv' ignore into table t fields terminated by ','"},
+	{Name: "load-data-replace", Class: "dml", SQL: "load data infile '%DIR%/t_dup.csv' replace into table t fields terminated by ','"},
+	{Name: "load-data-qualified", Class: "dml", SQL: "load data infile '%DIR%/t_new.csv' into table db.t fields terminated by ','"},
+	{Name: "load-data-other", Class: "dml-other", SQL: "load data infile '%DIR%/s_new.csv' into table other.s fields terminated by ','"},
+	{Name: "lock-tables-write", Class: "lock-write", SQL: "lock tables t write"},
+	{Name: "lock-tables-write-qualified", Class: "lock-write", SQL: "lock tables db.u write"},
+	{Name: "lock-tables-write-mixed", Class: "lock-write", SQL: "lock tables other.s read, t write"},
+	{Name: "call-multi", Class: "call-write", SQL: "call p_multi()"},
+	{Name: "call-other", Class: "call-write-other", SQL: "call p_other()"},
 	// ---- DDL
 	{Name: "create-table", Class: "ddl", SQL: "create table n1 (i int primary key, j varchar(5))"},
 	{Name: "create-table-like", Class: "ddl", SQL: "create table n2 like t"},
@@ -625,6 +676,8 @@ type caseT struct {
 
 // rodb    : read-only database, session with autocommit off (so that memory.Session.CommitTransaction is not reached)
 // rodb-ac : the same with the default autocommit; evaluated for reads only
+var loadDirRe = regexp.MustCompile(`[^' ]*c42-load-[^/']*/`)
+
 var tsRe = regexp.MustCompile(`t:[0-9][0-9 :.\-]*`)
 
 var modes = []string{"rw", "engine", "txn", "rodb", "rodb-ac"}
@@ -639,14 +692,9 @@ func runMode(st stmtT, mode string) (outcome, *treeT, string, bool) {
 	}
 	e := w.rw
 	if mode == "rodb" || mode == "rodb-ac" {
-		e = w.roEngine()
+		e = w.roEngine(mode == "rodb")
 	}
 	s := e.Session()
-	if mode == "rodb" {
-		if r := s.Query("set autocommit = 0"); r.Err != nil {
-			panic("set autocommit failed: " + r.Err.Error())
-		}
-	}
 	for _, p := range st.Prelude {
 		if r := s.Query(p); r.Err != nil {
 			if mode == "rw" {
@@ -684,6 +732,7 @@ func runMode(st stmtT, mode string) (outcome, *treeT, string, bool) {
 				return
 			}
 			tree = toTree(node, &foreign, 0)
+			rootIsDDL[st.Name+"|"+st.SQL] = plan.IsDDLNode(node)
 			func() {
 				defer func() {
 					if r := recover(); r != nil {
@@ -730,7 +779,7 @@ func runMode(st stmtT, mode string) (outcome, *treeT, string, bool) {
 
 func isWriteClass(c string) bool {
 	switch c {
-	case "dml", "ddl", "dcl", "other-db", "call-write", "stats", "tmp", "tmp-ddl":
+	case "dml", "ddl", "dcl", "other-db", "call-write", "stats", "dml-other", "ddl-other", "call-write-other", "lock-write":
 		return true
 	}
 	return false
@@ -743,11 +792,12 @@ func isWriteClass(c string) bool {
 //           the engine's own comments allow it; temporary tables may be written).
 //   rodb  : everything that modifies the read-only database itself (rows, schema, routines, triggers, views).
 func mustReject(class, mode string, st stmtT) bool {
+	class = strings.TrimSuffix(class, "-other") // engine / transaction modes do not care which database is written
 	switch mode {
 	case "engine":
 		return class == "dml" || class == "ddl" || class == "dcl" || class == "other-db" || class == "call-write"
 	case "txn":
-		return (class == "dml" || class == "call-write") && st.Name != "truncate" && st.Name != "insert-other-db"
+		return (class == "dml" || class == "call-write") && !strings.HasPrefix(st.Name, "truncate")
 	case "rodb":
 		return class == "dml" || class == "ddl" || class == "call-write"
 	case "rodb-ac":
@@ -756,11 +806,41 @@ func mustReject(class, mode string, st stmtT) bool {
 	return false
 }
 
+// plan.IsDDLNode of the analyzed root, per statement (filled by the read-write run)
+var rootIsDDL = map[string]bool{}
+
+var acTemplates = map[string]bool{"select-scan": true, "select-join": true, "select-view": true, "show-tables": true, "describe": true}
+
+// sig names a predicate failure by mode, kind of failure and the ROOT NODE KIND of the statement's plan (the statement
+// name when there is no plan), so that one root cause gives one signature and a new statement kind gives a new one.
+func sig(m, kind string, st stmtT, tree *treeT) string {
+	root := st.Name
+	if tree != nil {
+		root = tree.Kind
+		ks := map[string]bool{}
+		tree.kinds(ks)
+		if m == "rodb" && kind == "write-took-effect" && st.Class == "ddl" {
+			// validateReadOnlyDatabase descends only below roots listed in plan.IsDDLNode, and there only looks for a
+			// ResolvedTable of the read-only database
+			if !rootIsDDL[st.Name+"|"+st.SQL] {
+				return "rodb/write-took-effect/ddl-root-not-in-IsDDLNode"
+			}
+			if !ks["ResolvedTable"] {
+				return "rodb/write-took-effect/ddl-plan-without-resolved-table"
+			}
+		}
+	}
+	return m + "/" + kind + "/" + root
+}
+
 func run(c *lib.Ctx, st stmtT) {
 	cs := caseT{Stmt: st, Outcomes: map[string]outcome{}}
 	var tree *treeT
 	foreign := false
 	for _, m := range modes {
+		if m == "rodb-ac" && !acTemplates[st.Name] {
+			continue
+		}
 		o, t, isro, f := runMode(st, m)
 		cs.Outcomes[m] = o
 		if m == "rw" {
@@ -807,9 +887,12 @@ func run(c *lib.Ctx, st stmtT) {
 		return
 	}
 	for _, m := range modes[1:] {
-		o := cs.Outcomes[m]
+		o, ran := cs.Outcomes[m]
+		if !ran {
+			continue
+		}
 		if o.Panic != "" {
-			c.PredFail(id, m+"/panic/"+st.Class, fmt.Sprintf("%s mode: engine panicked on %q: %s", m, st.SQL, o.Panic), cs)
+			c.PredFail(id, m+"/panic/"+strings.TrimSuffix(st.Class, "-other"), fmt.Sprintf("%s mode: engine panicked on %q: %s", m, st.SQL, o.Panic), cs)
 			continue
 		}
 		if isWriteClass(st.Class) {
@@ -817,14 +900,38 @@ func run(c *lib.Ctx, st stmtT) {
 				c.Count("prelude-failed:" + m)
 				continue
 			}
+			if st.Class == "lock-write" {
+				// a write lock on a table of a read-only database must not be granted; no demand in the other modes
+				if m != "rodb" {
+					c.Count("no-demand:" + m + "/" + st.Class)
+				} else if o.Err == "" {
+					c.PredFail(id, sig(m, "write-lock-granted", st, tree), fmt.Sprintf("%s mode: %q is granted on a table of the read-only database", m, st.SQL), cs)
+				} else {
+					c.Count("rejected:" + m + "/" + o.Kind)
+				}
+				continue
+			}
+			if strings.HasSuffix(st.Class, "-other") && m == "rodb" {
+				// "nothing else": a statement that only writes the writable database must still work
+				if rw.Err != "" {
+					c.Count("rw-error:" + st.Name)
+				} else if o.Err != "" {
+					c.PredFail(id, sig(m, "write-to-writable-database-rejected", st, tree), fmt.Sprintf("%s mode: %q only writes the writable database other but fails with %q", m, st.SQL, o.Err), cs)
+				} else if rw.Changed && !o.Changed {
+					c.PredFail(id, sig(m, "write-to-writable-database-lost", st, tree), fmt.Sprintf("%s mode: %q was accepted but changed nothing", m, st.SQL), cs)
+				} else {
+					c.Count("write-other-ok:" + m)
+				}
+				continue
+			}
 			if !mustReject(st.Class, m, st) {
 				c.Count("no-demand:" + m + "/" + st.Class)
 				continue
 			}
 			if o.Changed {
-				c.PredFail(id, m+"/write-took-effect/"+sigName(st), fmt.Sprintf("%s mode: %q changed the database (error: %q)", m, st.SQL, o.Err), cs)
+				c.PredFail(id, sig(m, "write-took-effect", st, tree), fmt.Sprintf("%s mode: %q changed the database (error: %q)", m, st.SQL, o.Err), cs)
 			} else if rw.Changed && rw.Err == "" && o.Err == "" {
-				c.PredFail(id, m+"/write-not-rejected/"+sigName(st), fmt.Sprintf("%s mode: %q modifies the database on the read-write engine but was accepted without effect", m, st.SQL), cs)
+				c.PredFail(id, sig(m, "write-not-rejected", st, tree), fmt.Sprintf("%s mode: %q modifies the database on the read-write engine but was accepted without effect", m, st.SQL), cs)
 			} else {
 				c.Count("rejected:" + m + "/" + o.Kind)
 			}
@@ -843,7 +950,7 @@ func run(c *lib.Ctx, st stmtT) {
 			continue
 		}
 		if o.Changed {
-			c.PredFail(id, m+"/read-changed-database/"+sigName(st), fmt.Sprintf("%s mode: %q changed the database", m, st.SQL), cs)
+			c.PredFail(id, sig(m, "read-changed-database", st, tree), fmt.Sprintf("%s mode: %q changed the database", m, st.SQL), cs)
 		}
 		if o.Kind == "prelude" {
 			c.Count("prelude-failed:" + m)
@@ -854,20 +961,13 @@ func run(c *lib.Ctx, st stmtT) {
 			continue
 		}
 		if o.Err != "" {
-			c.PredFail(id, m+"/read-rejected/"+sigName(st), fmt.Sprintf("%s mode: read-only statement %q fails with %q but succeeds on the read-write engine", m, st.SQL, o.Err), cs)
+			c.PredFail(id, sig(m, "read-rejected", st, tree), fmt.Sprintf("%s mode: read-only statement %q fails with %q but succeeds on the read-write engine", m, st.SQL, o.Err), cs)
 		} else if st.Class != "session" && o.Rows != rw.Rows {
-			c.PredFail(id, m+"/read-result-differs/"+sigName(st), fmt.Sprintf("%s mode: %q returns %s, read-write engine returns %s", m, st.SQL, o.Rows, rw.Rows), cs)
+			c.PredFail(id, sig(m, "read-result-differs", st, tree), fmt.Sprintf("%s mode: %q returns %s, read-write engine returns %s", m, st.SQL, o.Rows, rw.Rows), cs)
 		} else {
 			c.Count("read-ok:" + m)
 		}
 	}
-}
-
-func sigName(st stmtT) string {
-	if strings.HasPrefix(st.Name, "gen-") {
-		return st.Name
-	}
-	return st.Name
 }
 
 func main() {
@@ -884,14 +984,24 @@ func main() {
 			"engine accepts (reads, session statements, DML, DDL, DCL, CALL, PREPARE/EXECUTE), then generated nested SELECTs (depth 1-3: derived tables, " +
 			"joins, unions, CTEs, IN/EXISTS, windows, grouping) alone, under EXPLAIN, and as sources of INSERT/UPDATE/DELETE/CREATE TABLE AS. " +
 			"Non-trivial = the statement analyzed to a plan; distinct = distinct plan shapes (node kinds, nesting).")
+		dir, err := os.MkdirTemp("", "c42-load-")
+		if err != nil {
+			panic(err)
+		}
+		defer os.RemoveAll(dir)
+		os.WriteFile(filepath.Join(dir, "t_new.csv"), []byte("20,twenty,200\n21,twentyone,210\n"), 0o644)
+		os.WriteFile(filepath.Join(dir, "t_dup.csv"), []byte("1,dup,1\n22,new,220\n"), 0o644)
+		os.WriteFile(filepath.Join(dir, "s_new.csv"), []byte("7,700\n8,800\n"), 0o644)
 		if c.ReplayFile != "" {
 			var cs caseT
 			lib.LoadReplay(c.ReplayFile, &cs)
+			cs.Stmt.SQL = loadDirRe.ReplaceAllString(cs.Stmt.SQL, dir+"/")
 			run(c, cs.Stmt)
 			return
 		}
 		n := 0
 		for _, st := range templates {
+			st.SQL = strings.ReplaceAll(st.SQL, "%DIR%", dir)
 			run(c, st)
 			n++
 		}
